@@ -29,6 +29,14 @@ def _work(args):
     return out
 
 
+def SqlalchemyRender_get(sql, d):
+    from mindsdb_sql import parse_sql
+    from mindsdb_sql.render.sqlalchemy_render import SqlalchemyRender
+    ast = parse_sql(sql, 'mindsdb')
+    fb = SqlalchemyRender(d).get_string(ast)
+    return (fb == str(ast)) or (fb == str(ast).replace('`', ''))
+
+
 def run(tier):
     run = Run('C06', tier, level='translation_validation')
     from harness import c06lib
@@ -81,6 +89,44 @@ def run(tier):
                 run.ob(name, 'counterexample', c.get('kind'))
         else:
             run.ob(name, 'inconclusive', '%s: %s' % (st, c.get('reason')))
+    # ---- DDL: CREATE TABLE / DROP TABLE (schema models of the tree and of the rendered text; z3 searches a row / pre-state that tells them apart)
+    try:
+        from harness import c06ddl
+        from mindsdb_sql.exceptions import ParsingException
+        n_ddl = 0
+        for sql in c06ddl.family():
+            try:
+                parse_sql(sql, 'mindsdb')
+            except ParsingException:
+                continue            # a combination the grammar does not have (type with a length followed by PRIMARY KEY)
+            for d in c06ddl.DIALECTS:
+                n_ddl += 1
+                name = 'render-ddl:%s:%s' % (d, sql[:80])
+                c = c06ddl.check_member(sql, d)
+                run.stats['solver_calls'] += 1
+                st = c['status']
+                if st == 'discharged':
+                    run.ob(name, 'discharged', 'unsat')
+                elif st == 'not-rendered':
+                    fb = SqlalchemyRender_get(sql, d)
+                    run.ob(name, 'discharged' if fb else 'inconclusive', 'renderer refuses (%s); fallback returns the tree\'s own string' % c.get('reason'))
+                elif st == 'counterexample':
+                    rep, info = c06ddl.replay_member(sql, d, c.get('witness'))
+                    key = 'render-ddl:%s:%s' % (d, 'create-or-replace-table-rendered-as-create-table' if 'OR REPLACE' in sql.upper() and ' OR REPLACE ' not in (c.get('rendered') or '').upper()
+                                                else sql)
+                    run.counterexample(key, '%s rendered for %s as %r: %s' % (sql, d, c.get('rendered'), '; '.join(c['problems'])[:300]),
+                                       {'ddl': {'sql': sql, 'dialect': d}, 'native': info}, rep)
+                    run.ob(name, 'counterexample' if rep else 'inconclusive', None)
+                else:
+                    run.ob(name, 'inconclusive', c.get('reason'))
+        run.bounds['ddl_statements'] = n_ddl
+        run.functions.append('SqlalchemyRender.prepare_create_table / prepare_drop_table / get_type (real, per member and dialect)')
+        run.assumptions.append('DDL part: the effect of CREATE TABLE is modelled by column names and order, type family, declared length / precision, NOT NULL, PRIMARY KEY, DEFAULT, table name, IF NOT EXISTS / OR REPLACE, '
+                               'and of DROP TABLE by the table name and IF EXISTS; an integer primary key may be auto-generated on either side (engines differ); CHAR without a length is CHAR(1); widening INT to BIGINT is accepted; '
+                               'the rendered text is read by an independent reader of CREATE TABLE syntax; check constraints, foreign keys, indexes, collations are not in the grammar')
+    except Exception as e:  # noqa
+        import traceback
+        run.error('DDL part crashed: %r %s' % (e, traceback.format_exc()[-400:]))
     run.extra['programs'] = len(res)
     run.finish()
 
@@ -90,6 +136,11 @@ def replay(path):
     print(json.dumps(r, indent=1)[:3000])
     from harness import c06lib
     rp = r['replay']
+    if rp.get('ddl'):
+        from harness import c06ddl
+        rep, info = c06ddl.replay_member(rp['ddl']['sql'], rp['ddl']['dialect'])
+        print('native replay now: reproduced=%s %s' % (rep, json.dumps(info, default=repr)))
+        return 1 if rep else 0
     if rp.get('witness'):
         rep, info = c06lib.replay_member(rp['sql'], rp['dialect'], rp['witness'])
         print('native replay now: reproduced=%s %s' % (rep, json.dumps(info, default=repr)))
